@@ -14,13 +14,13 @@ Traces == ndJsonDeserialize(IOEnv.TRACE_FILE)
 VARIABLE idx
 tvars == <<idx, inp, out, ev>>
 
-Same(o, g) == /\ g.info = o.info
-              /\ g.full = o.full
-              /\ Len(g.maps) = Len(o.maps)
-              /\ Range(g.maps) = Range(o.maps)
-              /\ Len(g.grouped) = Cardinality(o.grouped)
-              /\ Range(g.grouped) = o.grouped
-              /\ g.percent = o.percent
+\* the answers that differ from the specification's, by name
+Differ(o, g) ==
+     (IF g.info = o.info THEN {} ELSE {"memory_info"})
+  \cup (IF g.full = o.full THEN {} ELSE {"memory_full_info"})
+  \cup (IF Len(g.maps) = Len(o.maps) /\ Range(g.maps) = Range(o.maps) THEN {} ELSE {"memory_maps(grouped=False)"})
+  \cup (IF Len(g.grouped) = Cardinality(o.grouped) /\ Range(g.grouped) = o.grouped THEN {} ELSE {"memory_maps(grouped=True)"})
+  \cup (IF g.percent = o.percent THEN {} ELSE {"memory_percent"})
 
 TInit == /\ idx \in 1..Len(Traces)
          /\ inp = Traces[idx].inp
@@ -29,6 +29,6 @@ TInit == /\ idx \in 1..Len(Traces)
 TNext == Observe /\ UNCHANGED idx
 
 Match == (out # Pending) =>
-           \/ Same(out, Traces[idx].got)
-           \/ PrintT(<<"REJECTED", idx>>) /\ FALSE
+           \/ Differ(out, Traces[idx].got) = {}
+           \/ PrintT(<<"REJECTED", idx, Differ(out, Traces[idx].got)>>) /\ FALSE
 =============================================================================
